@@ -77,7 +77,7 @@ CHECKS["C04"] = dict(
         dict(name="enum", harness="pbt", workers=16, args=["--mode", "enum", "--depth", "4"], timeout=7200),
     ],
     rule="pbt: rapidcheck op sequences (profile 'voices': note on/off, CC64/66/120/121/123 and others, panic, reset-state, program/bank changes, bends, "
-         "time advance, arpeggio on/off, chip-count/emulator/chip-type changes, bank reload, reset, SysEx mode switches, blank/unblank instruments, "
+         "time advance, arpeggio on/off, chip-count/emulator/chip-type changes, bank reload, reset, SysEx mode switches, blank/unblank instruments, banks created and removed through the bank API while notes sound (CC0/CC32 select them), "
          "loading+ticking a small SMF) on 1-2 chips with few channels/keys so polyphony overflows; the six invariants I1-I6 are evaluated on a snapshot "
          "of the private tables and the tap-reconstructed key state after EVERY op. Non-trivial = a note was accepted while every chip channel was busy "
          "(eviction/arpeggio/evacuation) or a pedal/sostenuto-held user existed; distinct by FNV-64 of the serialised case. "
@@ -153,7 +153,7 @@ CHECKS["C03"] = dict(
         dict(name="pbt", harness="pbt", workers=16, args=["--n", "8000", "--maxlen", "400"], timeout=10800),
         dict(name="fuzz", harness="fuzz", workers=16, args=["-max_total_time=1200", "-max_len=8192"], seeds=False, timeout=7200),
     ],
-    rule="generated sequences (rapidcheck: <=150/400 calls; libFuzzer: decoded from bytes, <=400 calls) over 73 call kinds covering every exported function, "
+    rule="generated sequences (rapidcheck: <=150/400 calls, three profiles: everything / real-time heavy / bank-map heavy with bank ids that collide in the map's hash buckets; libFuzzer: decoded from bytes, <=400 calls) over 73 call kinds covering every exported function, "
          "arguments from a boundary list (INT_MIN..INT_MAX, 0/15/16/17/126/127/128/255/...) mixed with uniform bytes, valid/truncated/garbage bank and music blobs "
          "(memory and file variants), all 9 emulator ids + invalid ones, chip counts, 9 sample rates, hooks, close/re-init; correctly sized exact heap buffers. "
          "Oracle: ASan/UBSan/assert/terminate, CPU-time watchdog, and the documented-failure table (return values). Non-trivial = calls from >=3 API groups "
@@ -307,13 +307,14 @@ CHECKS["C18"] = dict(
     quick=[dict(name="pbt", harness="pbt", workers=8, args=["--n", "700"])],
     thorough=[dict(name="pbt", harness="pbt", workers=16, args=["--n", "40000"], timeout=10800)],
     rule="rapidcheck histories of setters with in-range, boundary (0,1,100,101,-1,INT_MIN/MAX) and invalid arguments (chip count, emulator id -2..40, LFO enable/frequency, chip type, "
-         "volume model, allocation mode, arpeggio, device id 0..16/255, boolean options, five hook kinds), opn2_reset, valid/corrupted bank images (two banks with different LFO/chip "
+         "volume model, allocation mode, arpeggio, device id 0..16/255, boolean options (scale modulators also with the documented -1), loop enabled / loop count / tempo multiplier (incl. ignored values <= 0) / loop-hooks-only, the deprecated logarithmic-volumes switch, five hook kinds), opn2_reset, valid/corrupted bank images (two banks with different LFO/chip "
          "defaults), valid/corrupted music images, invalid bank ids / track / channel numbers, notes. After EVERY call the complete getter vector (public getters + device id, "
          "hook slots, boolean options, loaded-bank fingerprint read from the instance) must equal the reference model; at the end a fixed phrase is rendered on the instance and on a "
          "twin that received the same history WITHOUT the rejected calls: register stream and PCM must be identical. Non-trivial = a rejected call followed by reset/switch/load, or "
          "an accepted setter followed by >=2 of them; distinct by FNV-64 of the history.",
     assumptions=[
         "void setters are modelled only for documented values; out-of-range chip type / volume model numbers are treated as rejected calls",
+        "settings without a getter and with an internal encoding (loop count, scale modulators -1, the volume model put in force by opn2_setLogarithmicVolumes) are modelled as 'what is in force right after the setter must stay in force'; whether a bank load ends the logarithmic-volumes switch is left open",
         "getNumChipsObtained is not asserted once the VGM dumper (which caps at 2 chips) has been selected in a history",
         "loop hooks are not asserted while the VGM dumper is the active emulator (it installs its own)",
         "after a rejected music file both the instance and its twin load the same valid file (the statement's 'able to load a valid file next') before comparison continues",
@@ -371,7 +372,7 @@ CHECKS["C07"] = dict(
     rule="rapidcheck SMF structures: format 0/1, 1-8 tracks (track k on channels 2k,2k+1; or, in 1 of 4 multi-track songs, every track on channels 0/1 with the same three keys and the track number carried in the last data byte), divisions {1,24,96,192,480,960,32767,random}, deltas 0 / small / multi-byte VLQ / up to 2M ticks, "
          "note on/off (velocity 0 too), controllers, program, bend, channel and key pressure with and without running status, SysEx F0 and F7, text/marker/sequencer-specific metas carrying "
          "(track,serial) stamps, tempo/time-signature/key/SMPTE/channel-prefix metas in track 0, End-of-Track alone at its tick or not; tempo multipliers {0.25,0.5,1,1.5,4,random}; "
-         "track off / solo / both (also on the same track) and channel masks; tick-driven (three step policies, three granularities) or audio-driven (request sizes 2..70000). An independent interpreter of the generated "
+         "track off / solo / both (also on the same track) and channel masks, channels switched off in the middle of playback (whatever sounds on them must stop; keys incl. 0/1/126/127); tick-driven (three step policies, three granularities) or audio-driven (request sizes 2..70000). An independent interpreter of the generated "
          "structure (exact rational tempo map) gives each event's tick and time; the raw-event-hook stream must contain every expected event once, per-track in tick order with the "
          "same-tick ordering constraints, in global time order, in the first call whose song time reaches its time (never earlier/later; audio: within one 512-frame period early, never late); "
          "totalTimeLength = latest time + 1 s; no note on gated channels/tracks. Non-trivial = (>=2 tracks or a tempo change after tick 0) and a tick with >=2 event classes.",
@@ -537,15 +538,15 @@ CHECKS["C01"] = dict(
         dict(name="pbt", harness="pbt", workers=16, args=["--n", "40000"], timeout=10800),
         dict(name="fuzz", harness="fuzz", workers=16, empty_corpus_workers=4, args=["-max_total_time=1200", "-max_len=65536"], unit_timeout=60, timeout=7200),
     ],
-    rule="pbt: a valid file of every front-end (SMF with every event kind, loop markers, device-switch meta; SMF with stacked marker loops; RMI; GMF; MUS; XMI with 1 and 3 songs; XMI with FOR/BREAK/NEXT loops; CMF header; rapidcheck-generated SMF/RMI) "
+    rule="pbt: a valid file of every front-end (SMF with every event kind, loop markers, device-switch meta; SMF with stacked marker loops; RMI; GMF; MUS; XMI with 1 and 3 songs; XMI with FOR/BREAK/NEXT loops; CMF header; an SMF spelling the sequencer's internal meta codes FF E1..E7; SMFs naming 3/15/16/17/40 MIDI ports; rapidcheck-generated SMF/RMI) "
          "receives 0-4 structured mutations (truncate anywhere, MTrk/IFF length fields set to 0/1/0x7fffffff/0xffffffff/..., division and track count rewritten incl. 0, byte rewrite, end on FF, "
-         "unterminated VLQ, slice duplication/deletion, MUS header fields, trailing bytes, declared meta-event lengths 0/1/2/longer, an XMI branch table (RBRN) of 1..4000 entries with repeating ids, bit flips), is loaded with a song number / loop / tempo chosen before the load and followed by up to 12 ops "
+         "unterminated VLQ, slice duplication/deletion, MUS header fields, trailing bytes, declared meta-event lengths 0/1/2/longer optionally with the meta type rewritten (tempo, internal codes E1..E7, port, end of track, marker), an XMI branch table (RBRN) of 1..4000 entries with repeating ids, bit flips), is loaded with a song number / loop / tempo chosen before the load and followed by up to 12 ops "
          "(tick, play, seek incl. negative/beyond the end, rewind, queries, song selection -3..5, track/channel options, titles and markers with out-of-range indices, describe, re-open whole or "
          "truncated). fuzz: libFuzzer over file bytes + a decoded tail of the same options/ops, from the committed seed files and from an empty corpus. Oracle: openData returns 0/-1 with an error "
-         "text, no sanitizer report / assert / abort / exception, 30 s CPU watchdog, single allocations capped at 256 MiB, and a known-good SMF must load and play to its end afterwards. "
+         "text, no sanitizer report / assert / abort / exception, 30 s CPU watchdog, single allocations capped at 256 MiB, live heap growth during the case <= 64 MiB + 128 KiB per input byte (ASan malloc/free hooks), CPU time of every load call <= 5 s + 2 ms per input byte, and a known-good SMF must load and play to its end afterwards. "
          "Non-trivial = the loader got past format detection and at least one follow-up op ran; distinct by FNV-64 of the case.",
     assumptions=[
-        "inputs are at most 64 KiB; 'time and memory proportional to the input' is judged with fixed generous caps (30 s CPU, 256 MiB per allocation) for that size",
+        "inputs are at most 64 KiB; 'time and memory proportional to the input' is judged with bounds linear in the input size whose constants are far above what the unchanged code needs (measured maxima are in coverage.numbers max_*: ~1.6 MB live heap, ~100 KiB per input byte for tiny inputs, 0.12 s per load) plus fixed caps (30 s CPU per case, 256 MiB per allocation)",
         "libFuzzer timeout/oom/slow-unit artifacts are only candidates: they count when the deterministic replay under the CPU watchdog fails 3/3",
     ],
     min_nontrivial={"quick": 1000, "thorough": 20000},
